@@ -13,3 +13,7 @@ $(O)/fuzz_chksum: $(O)/h/fuzz_chksum.o $(O)/librt.a
 fuzz_factory: $(O)/fuzz_factory
 fuzz_chksum: $(O)/fuzz_chksum
 .PHONY: fuzz_factory fuzz_chksum
+$(O)/fuzz_xml: $(O)/h/fuzz_xml.o $(O)/librt.a
+	$(CXX) $(SAN_asan) -fsanitize=fuzzer -o $@ $(O)/h/fuzz_xml.o $(O)/librt.a $(LDLIBS)
+fuzz_xml: $(O)/fuzz_xml
+.PHONY: fuzz_xml
